@@ -439,6 +439,12 @@ pub fn builder_cfgs() -> Vec<Cfg> {
         Cfg { name: "el-override", mode: s, allow_elements: Some((&["b", "a", "p", "span", "img"], Beh::Override)), ..d() },
         Cfg { name: "el-nomode", allow_elements: Some((&["b", "a", "table", "tbody", "tr", "td", "code"], Beh::Add)), ..d() },
         Cfg { name: "el-ignore", mode: s, ignore_elements: Some(&["b", "td", "div"]), ..d() },
+        // reply-fallback removal crossed with configurations in which `mx-reply` is not kept as an
+        // element: removal has priority over ignoring / not allowing
+        Cfg { name: "el-override-rrf", mode: s, rrf: true, allow_elements: Some((&["b", "a", "p", "span", "img"], Beh::Override)), ..d() },
+        Cfg { name: "el-nomode-rrf", rrf: true, allow_elements: Some((&["b", "a", "table", "tbody", "tr", "td", "code"], Beh::Add)), ..d() },
+        Cfg { name: "el-ignore-rrf", mode: s, rrf: true, ignore_elements: Some(&["b", "mx-reply"]), ..d() },
+        Cfg { name: "el-ignore-reply", mode: c, ignore_elements: Some(&["mx-reply", "div"]), ..d() },
         Cfg { name: "el-remove", mode: s, remove_elements: Some(&["b", "script", "svg", "ol"]), ..d() },
         Cfg { name: "el-remove-compat", mode: c, rrf: true, remove_elements: Some(&["a"]), ..d() },
         Cfg { name: "repl-el-add", mode: s, replace_elements: Some((&[("b", "strong"), ("script", "code")], Beh::Add)), ..d() },
